@@ -116,7 +116,9 @@ def gen_sgrid(rng, kind=None, words=None, space=None):
         if rng.random() < 0.5:
             d, n = rng.choice(sizes)
             dims.append([d, n, rng.choice(["X", "Y", "Q"]), rng.choice([None, -0.5])])
-    return {"conv": conv, "sgrid": attrs, "sizes": sizes, "dims": dims, "user": None, "topo": topo}
+    # the grid-topology container may be a data variable or a (non-index) coordinate of the dataset
+    return {"conv": conv, "sgrid": attrs, "sizes": sizes, "dims": dims, "user": None, "topo": topo,
+            "grid_as_coord": rng.random() < 0.3, "grid_name": rng.choice(["grid", "grid", "topology", "mesh"])}
 
 
 def grammar_word_cases(rng):
@@ -199,7 +201,10 @@ def build_ds(case):
             attrs["c_grid_axis_shift"] = shift
         ds = ds.assign_coords({name: xr.DataArray(np.arange(n), dims=[name], attrs=attrs)})
     if case["sgrid"] is not None:
-        ds["grid"] = xr.DataArray(0, attrs=case["sgrid"])
+        gn = case.get("grid_name", "grid")
+        ds[gn] = xr.DataArray(0, attrs=case["sgrid"])
+        if case.get("grid_as_coord"):
+            ds = ds.set_coords(gn)
     return ds
 
 
